@@ -25,6 +25,7 @@ import (
 	"path/filepath"
 	"reflect"
 	"runtime"
+	"sort"
 	"strconv"
 	"strings"
 	"sync"
@@ -1716,7 +1717,29 @@ func (t *Transaction) AssertedDatasets() []string {
 func (s *Store) ExecuteTransaction(transaction *Transaction) error {
 	datasets := make(map[string]*Dataset)
 
+	// lock the datasets in one global order (by name, core.Dataset last, which is the order a batch write
+	// nests its counter update in), so that transactions naming the same datasets cannot deadlock each other
+	names := make([]string, 0, len(transaction.DatasetEntities))
 	for k := range transaction.DatasetEntities {
+		names = append(names, k)
+	}
+	sort.Slice(names, func(i, j int) bool {
+		if (names[i] == datasetCore) != (names[j] == datasetCore) {
+			return names[j] == datasetCore
+		}
+		return names[i] < names[j]
+	})
+	var locked []*Dataset
+	unlock := func() {
+		for _, ds := range locked {
+			ds.WriteLock.Unlock()
+		}
+		locked = nil
+	}
+	// release locks at end regardless
+	defer unlock()
+
+	for _, k := range names {
 		dataset, ok := s.datasets.Load(k)
 		if !ok {
 			return errors.New("no dataset " + k)
@@ -1727,8 +1750,7 @@ func (s *Store) ExecuteTransaction(transaction *Transaction) error {
 		verifhook.Point("txn.lock.want", k)
 		dataset.(*Dataset).WriteLock.Lock()
 		verifhook.Point("txn.locked", k)
-		// release lock at end regardless
-		defer dataset.(*Dataset).WriteLock.Unlock()
+		locked = append(locked, dataset.(*Dataset))
 	}
 
 	txnTime := time.Now().UnixNano()
@@ -1759,6 +1781,13 @@ func (s *Store) ExecuteTransaction(transaction *Transaction) error {
 		return err
 	}
 	verifhook.Point("txn.committed", "")
+
+	// the data is committed. the counter updates below write to core.Dataset and take its write lock,
+	// which this transaction may hold itself (it is locked last): release it first
+	if n := len(locked); n > 0 && locked[n-1].ID == datasetCore {
+		locked[n-1].WriteLock.Unlock()
+		locked = locked[:n-1]
+	}
 
 	// update the txn counts
 	for k, v := range updateCountsPerDataset {
